@@ -68,7 +68,9 @@ tree after the `name` callback, handed on by `toR`).  Theorems quantify over ALL
   out of dependency order or onto a driven target (findings D23/D24).
   Hypotheses of the end-to-end theorems `orderOKB` / `forksOKB` / `linesDrivenB` are decidable conditions on (net, order); for
   bench they follow from the description (`bench_sched_hyps`, `bench_end_to_end_closed`: closed description over kinds the prefix
-  table knows, a topological order that covers every node), for Verilog they are hypotheses.
+  table knows, a topological order that covers every node), for Verilog they are hypotheses.  For bench `benchOKB` is exactly
+  "the parser model does not set `err`" (`bench_ok_is_no_error`); that a Verilog module inside `verilogOKB` builds (model `err`
+  false, real parser does not raise) is checked on every generated case by the correspondence run, not proved.
 * **Correspondence** (harness/c11.py, differential, not proof): (1) == real `verilog.parse` / `bench.parse` on generated
   texts: node list, line list with all pin numbers, `io_nodes`, connectivity table; both raise or both build on inputs outside
   the subset.  Which variant of pass 1.5 / pass 2 (`Cfg.assignFix`, `Cfg.onebitDecl`) the code under test has is probed.
